@@ -36,6 +36,8 @@ pub enum TyDef {
 
 pub struct Grammar {
     pub types: HashMap<String, TyDef>,
+    /// field names of the parameters of each block type (same order as `items`)
+    pub fields: HashMap<String, Vec<String>>,
 }
 
 fn parse_item(s: &str) -> Item {
@@ -92,9 +94,13 @@ impl Grammar {
         let path = std::env::var("VERIF_GRAMMAR").unwrap_or_else(|_| "work/translate/grammar.txt".to_string());
         let text = std::fs::read_to_string(&path).map_err(|e| format!("{path}: {e}"))?;
         let mut types = HashMap::new();
+        let mut fields = HashMap::new();
         for line in text.lines() {
             let p: Vec<&str> = line.split(' ').collect();
             match p[0] {
+                "fields" => {
+                    fields.insert(p[1].to_string(), p[2].split(',').map(|x| x.to_string()).collect::<Vec<String>>());
+                }
                 "enum" => {
                     let items = p[2..]
                         .iter()
@@ -129,7 +135,7 @@ impl Grammar {
                 }
             }
         }
-        Ok(Grammar { types })
+        Ok(Grammar { types, fields })
     }
 }
 
@@ -139,7 +145,8 @@ pub struct GTok {
     pub text: String,
     pub role: Role,
     pub depth: usize,
-    /// type name of the element this token opens / closes / names (Begin, End, Tag), else empty
+    /// type name of the element this token opens / closes / names (Begin, End, Tag), else empty;
+    /// for identifier parameters: the site "Type.field"
     pub elem: String,
 }
 #[derive(Clone, Debug, PartialEq)]
@@ -177,13 +184,14 @@ pub struct DocGen<'a> {
     /// when set, the first parameter of position-restricted types (`uint position`) ascends in generation order
     pub ascending_positions: bool,
     pos_counter: u32,
+    cur_site: String,
 }
 
 pub const VERSIONS: [(u8, &str); 6] = [(1, "1 50"), (2, "1 51"), (3, "1 60"), (4, "1 61"), (5, "1 70"), (6, "1 71")];
 
 impl<'a> DocGen<'a> {
     pub fn new(g: &'a Grammar, rng: &'a mut Rng, opts: GenOpts) -> Self {
-        DocGen { g, rng, opts, out: vec![], counter: 0, budget: 400, ascending_positions: false, pos_counter: 0 }
+        DocGen { g, rng, opts, out: vec![], counter: 0, budget: 400, ascending_positions: false, pos_counter: 0, cur_site: String::new() }
     }
 
     fn push(&mut self, text: String, role: Role, depth: usize) {
@@ -251,7 +259,8 @@ impl<'a> DocGen<'a> {
         match it {
             Item::Ident => {
                 let s = self.ident();
-                self.push(s, Role::Param, depth)
+                let site = self.cur_site.clone();
+                self.push_e(s, Role::Param, depth, &site)
             }
             Item::Str | Item::StrMax(_) => {
                 let s = self.string_value();
@@ -274,9 +283,13 @@ impl<'a> DocGen<'a> {
             }
             Item::Struct(t) => {
                 if let Some(TyDef::Block { items, .. }) = self.g.types.get(t).cloned() {
-                    for i in &items {
+                    let saved = self.cur_site.clone();
+                    let fl = self.g.fields.get(t).cloned().unwrap_or_default();
+                    for (k, i) in items.iter().enumerate() {
+                        self.cur_site = format!("{t}.{}", fl.get(k).cloned().unwrap_or_default());
                         self.gen_item(i, depth);
                     }
+                    self.cur_site = saved;
                 }
             }
             Item::Arr(of, n) => {
@@ -296,7 +309,9 @@ impl<'a> DocGen<'a> {
     /// parameters + tagged children of the type (without the tag / begin / end)
     pub fn gen_body(&mut self, ty: &str, depth: usize) {
         let Some(TyDef::Block { items, arms, pos, .. }) = self.g.types.get(ty).cloned() else { return };
+        let fl = self.g.fields.get(ty).cloned().unwrap_or_default();
         for (k, it) in items.iter().enumerate() {
+            self.cur_site = format!("{ty}.{}", fl.get(k).cloned().unwrap_or_default());
             if k == 0 && pos == 1 && self.ascending_positions {
                 self.pos_counter += 1 + self.rng.below(3) as u32;
                 let v = self.pos_counter.to_string();
